@@ -1229,6 +1229,12 @@ func ruleServerCancel(c *Ctx, rule4, rule7 string) {
 	}
 	fin := a.ServerFinish
 	// the stream's cancel: dynamic call of a context.CancelFunc field of SS
+	isCancelNow := func(in ssa.Instruction) bool {
+		if _, isDefer := in.(*ssa.Defer); isDefer {
+			return false // a deferred cancel runs at function exit, i.e. after the lock was taken
+		}
+		return isCancelFieldCall(in, a.SS.Obj().Name())
+	}
 	isCancel := func(in ssa.Instruction) bool {
 		ci, ok := in.(ssa.CallInstruction)
 		if !ok || staticCallee(ci) != nil || ci.Common().IsInvoke() {
@@ -1285,7 +1291,7 @@ func ruleServerCancel(c *Ctx, rule4, rule7 string) {
 	if firstLock == nil {
 		c.ok(rule7, w.Short(fin)+": cancel precedes the write mutex", w.Pos(fin.Pos()), "no stream mutex acquired")
 	} else {
-		okOrder := pathAvoiding(fin, nil, func(in ssa.Instruction) bool { return in == firstLock }, isCancel) == nil
+		okOrder := pathAvoiding(fin, nil, func(in ssa.Instruction) bool { return in == firstLock }, isCancelNow) == nil
 		c.check(okOrder, rule7, w.Short(fin)+": cancel precedes the write mutex", w.At(firstLock), "every path to the Lock passes st.cancel()", "the server finishing function acquires the stream's write mutex before cancelling the stream context: when it runs on the receive loop (client cancel, bad frame, window overrun) while the handler holds that mutex blocked on its flow-control window, the loop waits for the handler and the handler waits for the loop (tunnel deadlock)")
 	}
 	// every callee invoked before the cancel must not take the write mutex either
